@@ -9,6 +9,7 @@ import XmppModel.Lemmas.CorrAttrs
 import XmppModel.Model.CorrWrap
 import XmppModel.Model.CorrExpect
 import XmppModel.Model.CorrIbb
+import XmppModel.Lemmas.CorrKey
 /-!
 # C06 — every correlated wait ends exactly once with its own reply or its context error
 
@@ -877,5 +878,72 @@ example : (CorrIbb.final {} {} ([.read, .write, .close] ++ epilogue)).quiet = tr
 example : Good ({} : CorrIbb.St) := by intro h; simp at h
 
 end Ibb
+
+/-! ### round E: the key a call waits under is the id on the wire; addresses take no part
+
+`Model/CorrKey.lean`: head of `SendIQ` / `SendMessage` / `SendPresence` (find or add the id
+attribute, generate a value into it), the id part of `stanzaEncoder.EncodeToken` (drop empty
+id attributes, add one if none is left), the peer reading the id off the wire, the look-up by
+`(id, name)`.  "returns … with the response stanza of the same kind and id" presupposes that the
+id the peer can answer with IS the key of the pending entry. -/
+section Key
+open XmppModel.CorrKey XmppModel.CorrAttrs
+
+/-- for EVERY attribute list of the request's start element (qualified look-alikes, empty values,
+several id attributes, any position of the type attribute): the id the peer reads on the wire is
+the key the call registered -/
+theorem C06_key_wire_id_is_registered_id (f₁ f₂ : Nat) (hf : f₁ ≠ 0) (attrs : List Attr) :
+    wireId (send {} f₁ f₂ attrs).2 = some (send {} f₁ f₂ attrs).1 :=
+  wire_id_registered f₁ f₂ hf attrs
+
+example : send {} 7 8 [⟨.foreign, .id, 2⟩, ⟨.none, .id, 0⟩, ⟨.none, .type, 1⟩] =
+    (7, [⟨.foreign, .id, 2⟩, ⟨.none, .id, 7⟩, ⟨.none, .type, 1⟩]) := by decide
+
+/-- a call never waits under the empty id -/
+theorem C06_key_registered_id_nonempty (cfg : CorrKey.Cfg) (f₁ : Nat) (hf : f₁ ≠ 0) (attrs : List Attr) :
+    (prepare cfg f₁ attrs).1 ≠ 0 := by
+  unfold prepare
+  cases idOf attrs with
+  | none => simpa using hf
+  | some p =>
+    obtain ⟨idx, v⟩ := p
+    by_cases hv : v = 0 <;> simp [hv, hf]
+
+/-- an id the caller chose is the key (and, by the first theorem, what the peer reads) -/
+theorem C06_key_given_id_is_key (cfg : CorrKey.Cfg) (f₁ f₂ idx v : Nat) (attrs : List Attr)
+    (h : idOf attrs = some (idx, v)) (hv : v ≠ 0) : (send cfg f₁ f₂ attrs).1 = v := by
+  simp [send, prepare, h, hv]
+
+example : idOf [⟨.none, .type, 1⟩, ⟨.none, .id, 1⟩] = some (1, 1) := by decide
+
+/-- the look-up reads neither the request's to nor the reply's from -/
+theorem C06_key_lookup_ignores_addresses (e : Entry) (r : Reply) (to' : To) (frm' : From) :
+    matchEntry {} e r = matchEntry {} { e with to := to' } { r with frm := frm' } := by
+  simp [matchEntry]
+
+/-- every round trip ends with the reply: whatever the start element's attributes, wherever the
+request went, however the peer spells its address (or whoever answers) -/
+theorem C06_key_round_trip_ends_with_reply (f₁ f₂ : Nat) (hf : f₁ ≠ 0) (attrs : List Attr) (to : To) (frm : From) :
+    roundTrip {} f₁ f₂ attrs to frm = .reply := by
+  unfold roundTrip
+  simp only [C06_key_wire_id_is_registered_id f₁ f₂ hf attrs]
+  simp [matchEntry]
+
+/-- negation witness: generate an id without writing it into the empty id attribute that was
+found, and the reply to what the encoder sends instead is lost -/
+theorem C06_key_unstored_id_loses_reply :
+    roundTrip { storeFresh := false } 7 8 [⟨.none, .id, 0⟩] .absent .absent = .lost := by decide
+
+/-- negation witness: compare the reply's from with the request's to as strings, and the reply of
+the very addressee, spelled differently, is lost -/
+theorem C06_key_checked_from_loses_reply :
+    roundTrip { fromChecked := true } 7 8 [] .full .equiv = .lost ∧
+    roundTrip { fromChecked := true } 7 8 [⟨.none, .id, 1⟩] .idn .ace = .lost := by decide
+
+/-- the complete small domain the differential runs cover (what the driver answers for it) -/
+example : (lists 2).all (fun as => allTo.all fun t => allFrom.all fun f => roundTrip {} 7 8 as t f = .reply) = true := by
+  decide
+
+end Key
 
 end XmppModel.Props.C06
